@@ -379,6 +379,16 @@ func checkC14(p *Program, r *Report) {
 		}
 		r.Add("C14.content", "builder.(*GCSBuilder)", "entries are de-duplicated through a map keyed by the entry bytes", content.Pos(), okMap, "data[string(entry)] = struct{}{}")
 		c14builderOwnsEntries(p, r)
+		// round 6 (C14-agent6-m3): "a filter rebuilt from [a serialisation] … answers every query identically" for as long
+		// as it lives: the rebuilt filter keeps its own copy of the bytes (C20's construction clause for gcs.Filter)
+		r.Borrow("C20", func(o *Ob) (string, bool) {
+			if o.Rule == "C20.gcs" && strings.Contains(o.Construct, "freshly allocated") {
+				return "C14.copy", true
+			}
+			return "", false
+		})
+		r.Floor("C14.copy", 2)
+		c14modulus(p, r)
 	}
 	r.Floor("C14.content", 4)
 	c14mulhi(p, r)
@@ -1198,4 +1208,83 @@ func fromMapRange(v ssa.Value, recv ssa.Value) bool {
 		}
 	}
 	return false
+}
+
+// c14modulus (round 6, C14-agent6-m1): builder and readers agree on the range the hashes are reduced to.  Every store
+// to the filter's modulus field — in BuildGCSFilter and in FromBytes alike — is the plain product N·M of the element
+// count and the M parameter stored next to it; a helper that special-cases M == 0 on the encoding side only makes a
+// built filter and the filter rebuilt from its bytes hash differently.
+func c14modulus(p *Program, r *Report) {
+	pk := p.Pkg("gcs")
+	if pk == nil {
+		r.Unresolved("C14.modulus", "package gcs")
+		return
+	}
+	n := 0
+	for _, fn := range p.Funcs {
+		if fn.Pkg != pk {
+			continue
+		}
+		for _, b := range fn.Blocks {
+			for _, in := range b.Instrs {
+				st, ok := in.(*ssa.Store)
+				if !ok {
+					continue
+				}
+				fa, ok := st.Addr.(*ssa.FieldAddr)
+				if !ok {
+					continue
+				}
+				f := fieldOfAddr(fa)
+				bt, isB := f.Type().Underlying().(*types.Basic)
+				if !isB || bt.Kind() != types.Uint64 || !isNamed(derefType(fa.X.Type()), ModPath+"/gcs", "Filter") {
+					continue
+				}
+				// the uint64 field that is a product: the modulus (the M parameter itself is stored as it arrives)
+				if _, isParam := stripConv(st.Val).(*ssa.Parameter); isParam {
+					continue
+				}
+				n++
+				mul, ok := stripConv(st.Val).(*ssa.BinOp)
+				good := ok && mul.Op == token.MUL
+				how := "stored value " + exprString(st.Val)
+				if good {
+					// each factor is an argument or a field of the filter being built (its element count, its M), as it is
+					plain := func(v ssa.Value) bool {
+						v = stripConv(v)
+						if _, isP := v.(*ssa.Parameter); isP {
+							return true
+						}
+						if ff, base, isF := fieldLoad(v); isF && ff != nil && base == canonRoot(fa.X) {
+							return true
+						}
+						return false
+					}
+					good = plain(mul.X) && plain(mul.Y)
+					how = "a plain product of the element count and M"
+					if !good {
+						how = "product of " + exprString(mul.X) + " and " + exprString(mul.Y) + " (not the element count and the M argument as they are)"
+					}
+				}
+				r.Add("C14.modulus", FnName(fn), "the reduction range stored in "+f.Name()+" is the product N·M", st.Pos(), good, how)
+			}
+		}
+	}
+	if n == 0 {
+		r.Unresolved("C14.modulus", "stores to the modulus field of gcs.Filter")
+	}
+	r.Floor("C14.modulus", 2)
+}
+
+func stripConv(v ssa.Value) ssa.Value {
+	for {
+		switch x := v.(type) {
+		case *ssa.Convert:
+			v = x.X
+		case *ssa.ChangeType:
+			v = x.X
+		default:
+			return v
+		}
+	}
 }
